@@ -54,6 +54,7 @@ func spaceUnicode(ctx *bex.Ctx)        { explore(ctx, famUnicode) }        // (d
 func spaceFolds(ctx *bex.Ctx)          { explore(ctx, famFolds) }          // (e) failing constant folds
 func spaceRunaway(ctx *bex.Ctx)        { explore(ctx, famRunaway) }        // (f) constant recursion without end
 func spaceGoroutineFolds(ctx *bex.Ctx) { explore(ctx, famGoroutineFolds) } // (g) folds that start goroutines
+func spaceGenericGens(ctx *bex.Ctx)    { explore(ctx, famGenericGenerators) } // (h) generators without optional handlers
 
 func run(ctx *bex.Ctx) {
 	if runAsChild(ctx) { // a child process executes the index range named in its environment
@@ -74,6 +75,7 @@ func run(ctx *bex.Ctx) {
 		spaceFolds,
 		spaceRunaway,
 		spaceGoroutineFolds,
+		spaceGenericGens,
 		spaceBytes,
 		spaceTokens,
 		spacePadded,
@@ -129,7 +131,7 @@ func main() {
 			"hang = 20 s CPU or 60 s wall (150 s / 300 s for inputs above 4 KiB) inside one call",
 			"goroutines left behind by a Parse that stopped early (F12a, property C12) are not judged here; enumerating processes are recycled above 150 000 goroutines or 50 000 cases",
 		},
-		QuickBudget:      55 * time.Second,
+		QuickBudget:      80 * time.Second,
 		ThoroughBudget:   23 * time.Minute,
 		Run:              run,
 		Replay:           replay,
